@@ -110,6 +110,9 @@ def plans(chk):
         combos = [(3, 2)] if chk.quick else [(2, 1), (3, 2), (4, 3), (5, 4)]
         for (n, w) in combos:
             out.append(mkplan(rng, 'queue_put', kind, n, w))
+    # a single worker is still a separate process
+    out.append(mkplan(rng, 'line', 'exit', 3, 1))
+    out.append(mkplan(rng, 'before_sync', 'raise', 3, 1))
     # undecodable input and injected UnicodeDecodeError
     out.append(mkplan(rng, 'line', 'raise_ude', 3, 2))
     out.append(mkplan(rng, 'sync_inside_lock', 'raise_ude', 3, 2))
@@ -267,6 +270,12 @@ def classify(chk, r):
                            json.dumps(o)[:300]})
         return found
     held = bool(o.get('store_lock_held'))
+    if o['run1'] == 'caller-killed':
+        # the task ran inside the calling process (no worker process at
+        # all): the injected abrupt exit would have been the caller's
+        viol(f"worker-exit-kills-caller workers={plan['workers']} "
+             f"files={plan['nfiles']} {tag}")
+        return found
     if o['run1'] == 'returned':
         viol(f'partial-results {tag}')
     elif o['run1'] == 'hang':
